@@ -54,7 +54,7 @@ def run(tier):
     rounds = 8 if thorough else 1
     pairs = [(d, i) for d in range(4) for i in range(4)]
     for rd in range(rounds):
-        nb = 9
+        nb = len(famnames)            # every key family in every round
         for bi in range(nb):
             fam = famnames[(bi + rd) % len(famnames)]
             vf = concrete.VALUE_FAMILIES[(bi + rd + 1) % len(concrete.VALUE_FAMILIES)]
@@ -63,6 +63,8 @@ def run(tier):
                 if ti % nb != bi:
                     continue
                 w = sstrun.writer_cfg(rng, pairs[(ti + rd) % 16] if thorough else None)
+                if fam in ("hugelast", "long", "len128") and len(cases) % 2 == 0:
+                    w["bloomn"] = 1000000    # a roomy filter: a key hashed differently by writer and reader is then reported absent, not masked
                 cases.append(dict(w, writes=[{"k": k, "v": v, "fault": ""} for k, v in acc], readers=sstrun.reader_cfgs(rng), probes=probes, ranges=ranges))
             batches.append(("tlc-%s-%d-%d" % (fam, rd, bi), fams[fam], concrete.value_family(vf, vals_tok, rng), cases))
     # big seeded tables
